@@ -81,6 +81,21 @@ Proof.
 Qed.
 Print Assumptions C41_local_reply_blocks_refuted.
 
+(* The other thing the code as found does not guarantee ("returns as soon as every expected node
+   answered"): duplicates of one node can fill the survey's channel, so that the genuine answer of the last
+   expected node is dropped by the non-blocking send; the survey then has heard from every node but keeps
+   collecting until its deadline.  (Both refutations are KNOWN findings, reproduced on the real node by the
+   stress classes of the driver.) *)
+Theorem C41_duplicates_drop_answer_refuted :
+  exists st s, srun n_init [LStart 3 (Some 5%N); LLocal 1; LHandlerDone 1; LCollect 1;
+                            LDeliver 1%N 1 10%N; LDeliver 1%N 1 11%N; LDeliver 1%N 1 12%N;   (* node 1, three times *)
+                            LDeliver 2%N 1 20%N;                                           (* node 2: dropped *)
+                            LCollect 1; LCollect 1; LCollect 1] = Some st /\
+    find_sv (n_surveys st) 1 = Some s /\ s_phase s = Collecting /\ s_buf s = [] /\
+    map fst (s_results s) = [0%N; 1%N] /\ sstep st (LReturn 1) = None /\ sstep st (LCollect 1) = None.
+Proof. eexists. eexists. split; [vm_compute; reflexivity|]. repeat split; reflexivity. Qed.
+Print Assumptions C41_duplicates_drop_answer_refuted.
+
 (* ---- non-vacuity ---- *)
 (* three nodes; node 2 answers twice (the second answer overwrites), node 1 once, the local reply; a response
    for an unknown survey and one after the return are ignored *)
